@@ -3,25 +3,29 @@ EXTENDS CoreMesh
 Bound == TLCGet("level") <= MaxLevel
 EmitState == PrintT(ToJson([A |-> A, F |-> F, path |-> path, obs |-> Obs, fobs |-> FolObs, coreMesh |-> coreMesh]))
 ASSUME PrintT(ToJson([CT |-> CT, BT |-> BT]))
-Ref(types, hs, hd, det) == [types |-> types, hs |-> hs, hd |-> hd, top |-> "", det |-> det, hot |-> 0]
+Ref(types, hs, hd, det) == [types |-> types, hs |-> hs, hd |-> hd, top |-> "", det |-> det, hot |-> 0, rule |-> "default"]
 Fol(types, hs, hd, fuel) == [types |-> types, hs |-> hs, hd |-> hd, fuel |-> fuel]
 G3  == {<<5, 6>>, <<1, 1>>, <<6, 5>>}
 NoTriples == {}
+NoRepl == {}
+NoEdits == {}
 FromNone == {}
 \* reference shield/fuel/fuel/plenum; followers: the same column, a coarser fuel column (one fuel block over two reference
 \* blocks, annular fuel), a control assembly (not flagged FUEL), a fuel assembly with a duct-only block below the fuel
 FolsA == << Fol(<<"shield", "fuel", "fuel", "plenum">>, <<3, 4, 3, 3>>, 3, TRUE),
             Fol(<<"shield", "afuel", "plenumd">>, <<3, 7, 3>>, 3, TRUE),
             Fol(<<"shield", "control", "plenum">>, <<3, 7, 3>>, 3, FALSE),
-            Fol(<<"ductclad", "fueld">>, <<3, 10>>, 3, TRUE) >>
-CoresQuick == { [ref |-> Ref(<<"shield", "fuel", "fuel", "plenum">>, <<3, 4, 3, 3>>, 3, FALSE), fols |-> FolsA] }
+            Fol(<<"ductclad", "fueld">>, <<3, 10>>, 3, TRUE),
+            Fol(<<"shield", "fuel", "plenum">>, <<3, 7, 3>>, 3, FALSE) >>     \* fuel blocks in an assembly whose type is not "fuel" (driver)
+CoresQuick == { [ref |-> Ref(<<"shield", "fuel", "fuel", "plenum">>, <<3, 4, 3, 3>>, 3, FALSE), ex |-> <<0, 2, 0, 0, 0>>, fols |-> FolsA] }
 \* small core for the quick replay: a 3-block reference column, the same four kinds of followers
-CoresEmit == { [ref |-> Ref(<<"shield", "fuel", "plenum">>, <<3, 7, 3>>, 3, FALSE),
+CoresEmit == { [ref |-> Ref(<<"shield", "fuel", "plenum">>, <<3, 7, 3>>, 3, FALSE), ex |-> <<0, 2, 0, 0>>,    \* the fuel block's designer locked the clad
                 fols |-> << Fol(<<"shield", "afuel", "plenumd">>, <<3, 7, 3>>, 3, TRUE),
                             Fol(<<"shield", "control", "plenum">>, <<3, 7, 3>>, 3, FALSE),
-                            Fol(<<"ductclad", "fueld">>, <<3, 10>>, 3, TRUE) >>] }
+                            Fol(<<"ductclad", "fueld">>, <<3, 10>>, 3, TRUE),
+                            Fol(<<"shield", "fuel", "plenum">>, <<3, 7, 3>>, 3, FALSE) >>] }
 CoresThorough == CoresQuick \cup
-    { [ref |-> Ref(<<"shield", "fuel", "fuel", "plenum">>, <<3, 4, 3, 3>>, 3, TRUE), fols |-> FolsA],
-      [ref |-> Ref(<<"fuelb", "bigfuel", "plenums">>, <<4, 4, 4>>, 4, FALSE),
+    { [ref |-> Ref(<<"shield", "fuel", "fuel", "plenum">>, <<3, 4, 3, 3>>, 3, TRUE), ex |-> <<0, 0, 0, 0, 0>>, fols |-> FolsA],
+      [ref |-> Ref(<<"fuelb", "bigfuel", "plenums">>, <<4, 4, 4>>, 4, FALSE), ex |-> <<3, 0, 0, 0>>,
        fols |-> << Fol(<<"fuel", "plenum">>, <<8, 4>>, 4, TRUE), Fol(<<"shield", "shield", "plenumd">>, <<4, 4, 4>>, 4, FALSE) >>] }
 =====================================================================================================
